@@ -316,6 +316,17 @@ def public_api():
         for n, mem in inspect.getmembers(cls):
             if not n.startswith("_") and callable(mem):
                 names.add(f"state.{n}")
+    # ... and the public methods of the anchored RBM classes: `NeuralStateBase.__getattr__` forwards every name a state does not
+    # define to `rbm_am`, so `state.gibbs_steps(...)`, `state.initialize_parameters()`, `state.effective_energy(v)` … are public
+    # operations on a state too (torch.nn.Module's own members are not the library's)
+    import torch.nn as nn
+    from qucumber.rbm import BinaryRBM, PurificationRBM
+
+    module_members = {n for n, _ in inspect.getmembers(nn.Module)}
+    for cls in (BinaryRBM, PurificationRBM):
+        for n, mem in inspect.getmembers(cls):
+            if not n.startswith("_") and callable(mem) and n not in module_members:
+                names.add(f"rbm.{n}")
     for n, cls in inspect.getmembers(obsmod, inspect.isclass):
         if n.startswith("_"):
             continue
@@ -490,6 +501,27 @@ def do_op(op, states, workdir):
             return F.call(c, st.subspace_vector, [], [F.int(c, "num", op["num"], allowed=A_STAT), F.int(c, "size", op.get("size"))], legacy_pos=1)
         if w == "compute_normalization":
             return st.compute_normalization(st.generate_hilbert_space())
+        if w.startswith("fwd_"):
+            # a public method of the anchored RBM class, called ON THE STATE: `NeuralStateBase.__getattr__` forwards every name the
+            # state does not define to `rbm_am`, so these are public operations on a state as well (read-only evaluators, no draws)
+            name = w[4:]
+            if name in vars(type(st)) or any(name in vars(c) for c in type(st).__mro__[:-1]):
+                raise KeyError(f"{name} is defined on the state class: not a forwarded call")
+            f = getattr(st, name)
+            rbm = st.rbm_am
+            hid = lambda m: torch.tensor([[float((3 * i + 5 * j + len(op["rows"])) % 2) for j in range(m)] for i in range(len(op["rows"]))],  # noqa: E731
+                                         dtype=torch.double)
+            if name in ("effective_energy", "effective_energy_gradient", "prob_h_given_v", "prob_a_given_v", "mixing_term"):
+                return f(v)
+            if name == "partition":
+                return f(st.generate_hilbert_space())
+            if name == "prob_v_given_h":
+                return f(hid(rbm.num_hidden))
+            if name == "prob_v_given_ha":
+                return f(hid(rbm.num_hidden), hid(rbm.num_aux))
+            if name in ("gamma", "gamma_grad"):
+                return f(v, tens(op["rows2"]))
+            raise KeyError(w)
         raise KeyError(w)
     if t == "metric":
         w = op["what"]
@@ -544,6 +576,8 @@ def do_op(op, states, workdir):
             return F.call(c, st.pi_grad, [v, tens(op["rows2"])], [F.flag(c, "phase", op.get("phase", False)), F.flag(c, "expand", op.get("expand", False))])
         raise KeyError(w)
     if t == "batchGradient":
+        if op.get("fwd"):  # `state.gibbs_steps(k, chains)`: the RBM's method reached through the state's attribute forwarding
+            return st.gibbs_steps(op["k"], tens(op["neg"]))
         v = tens(op["rows"])
         neg = tens(op["neg"])
         b = bases_arr(op["bases"]) if op.get("bases") is not None else None
